@@ -520,5 +520,15 @@ def check(s):
     check_kinds(s)
     check_purity(s)
     check_sizes(s)
-    for r_, n_ in (("C02.1", 14), ("C02.2", 80), ("C02.3", 300), ("C02.4", 20)):
+    # ---------------------------------------------------------------- C02.5 wrapper stacks: declared space vs what the wrapper emits
+    # "every wrapper stack over one": a wrapper's declared observation/action space has to be the image of the inner space under
+    # exactly the map it applies to observations/actions (rescale: one (gradient, intercept) pair builds the new box AND the map;
+    # clip: the bounds clipped to are the bounds declared), untouched spaces are the inner ones, and the emitted observation is the
+    # inner observation passed through that map only.
+    from .C13 import check_constructors, check_delegation, check_rescale, check_spaces
+    check_spaces(s, "C02.5")
+    check_rescale(s, "C02.5")
+    check_constructors(s, "C02.5")
+    check_delegation(s, "C02.5", ["observation", "action_mask", "initial"])
+    for r_, n_ in (("C02.1", 14), ("C02.2", 80), ("C02.3", 300), ("C02.4", 20), ("C02.5", 60)):
         s.floor(r_, n_)
